@@ -749,6 +749,82 @@ pub fn check_par_with(alpha: &[(Vec<u8>, Vec<u8>)], col: &mut Collector) -> (u64
             }
         }
     }
+    // statically typed leaves: what a leaf reports comes from the library's own SystemData impls
+    {
+        use crate::spec::StaticData;
+        use std::marker::PhantomData;
+        fn static_leaf(k: StaticData, id: usize, ctx: &Arc<Ctx>) -> BNode {
+            macro_rules! mk {
+                ($t:ty) => {
+                    BNode(Box::new(SSys::<$t> { id, time: 3, ctx: ctx.clone(), _k: PhantomData }))
+                };
+            }
+            match k {
+                StaticData::Unit => mk!(SUnit),
+                StaticData::ReadA => mk!(SReadA),
+                StaticData::WriteC => mk!(SWriteC),
+                StaticData::OptReadA => mk!(SOptReadA),
+                StaticData::OptWriteC => mk!(SOptWriteC),
+                StaticData::ReadExpectA => mk!(SReadExpectA),
+                StaticData::ReadAWriteC => mk!(SReadAWriteC),
+                StaticData::OptReadAThenReadA => mk!(SOptReadAThenReadA),
+                StaticData::NamingThenProviding => mk!(SNamingThenProviding),
+                StaticData::GenReadA => mk!(SGenReadA),
+                StaticData::GenReadC => mk!(SGenReadC),
+            }
+        }
+        let mask = |v: Vec<u8>| v.iter().fold(0u8, |m, x| m | 1 << x);
+        let ids = |v: Vec<u8>| -> Vec<ResourceId> {
+            let mut r: Vec<ResourceId> = v.iter().map(|x| concrete_id(*x)).collect();
+            r.sort();
+            r.dedup();
+            r
+        };
+        for a in StaticData::all() {
+            for b in StaticData::all() {
+                cases += 1;
+                let (na, nb) = (static_leaf(a, 0, &ctx), static_leaf(b, 1, &ctx));
+                // what a seq node of the two reports (as sets)
+                let (mut rr, mut ww) = (Vec::new(), Vec::new());
+                let sq = Seq::new(static_leaf(a, 0, &ctx)).with(static_leaf(b, 1, &ctx));
+                RunWithPool::reads(&sq, &mut rr);
+                RunWithPool::writes(&sq, &mut ww);
+                rr.sort();
+                rr.dedup();
+                ww.sort();
+                ww.dedup();
+                let mut er = a.reads();
+                er.extend(b.reads());
+                let mut ew = a.writes();
+                ew.extend(b.writes());
+                if rr != ids(er) || ww != ids(ew) {
+                    col.add(Finding {
+                        prop: "C16".into(),
+                        sig: "root-access-not-union".into(),
+                        msg: format!("seq[{}, {}] (statically typed leaves) reports reads {:?} / writes {:?}, the leaves' data access reads {:?} / writes {:?}", a.label(), b.label(), rr, ww, ids(a.reads().into_iter().chain(b.reads()).collect()), ids(a.writes().into_iter().chain(b.writes()).collect())),
+                        replay: json!({"kind":"par-with-static","a":a.label(),"b":b.label()}),
+                        size: 2,
+                    });
+                }
+                let r = catch_unwind(AssertUnwindSafe(|| {
+                    let _ = Par::new(na).with(nb);
+                }));
+                let expect = conflict((mask(a.reads()), mask(a.writes())), (mask(b.reads()), mask(b.writes())));
+                if r.is_err() {
+                    panics += 1;
+                }
+                if r.is_err() != expect {
+                    col.add(Finding {
+                        prop: "C16".into(),
+                        sig: if expect { "par-with-accepted-conflict".into() } else { "par-with-rejected-compatible-children".into() },
+                        msg: format!("Par::new({}).with({}) (statically typed leaves) {} but the access sets {}", a.label(), b.label(), if r.is_err() { "panicked" } else { "did not panic" }, if expect { "conflict" } else { "are compatible" }),
+                        replay: json!({"kind":"par-with-static","a":a.label(),"b":b.label()}),
+                        size: 2,
+                    });
+                }
+            }
+        }
+    }
     // long access lists: the contested resource sits behind n entries naming an unrelated resource, either in
     // one leaf's declared list (duplicates are legal) or spread over the leaves of a seq child
     for n in 0..=40usize {
